@@ -469,7 +469,7 @@ def _run(tier, seed, want, name):
                 'under a seeded virtual-time scheduler (worker-thread latency, daemon latency); judged at quiescence after '
                 'every phase against expectations computed from the daemon only; non-trivial = the history contains a '
                 'reorg or a mempool change and at least one judged subscription/query/proof')
-    n = {'quick': 14, 'thorough': 300}[tier]
+    n = {'quick': 80, 'thorough': 800}[tier]
     if 'proofs' in want:
         for variant in (0, 1):
             fails, h = scenario_header_cache_race(res, seed, variant)
